@@ -1100,6 +1100,9 @@ def run(tier, seed):
     problems = png.selftest()
     if problems:
         raise BrokenCheck('reference PNG decoder self-test failed: {}'.format(problems[:3]))
+    # load every module under test now, so that all forked workers see the working tree as
+    # it is at this instant
+    import skoolkit.image, skoolkit.graphics, skoolkit.pngwriter, skoolkit.sna2img, skoolkit.skool2html  # noqa: F401,E401
     stats = core.run_shards(_shard, tier, seed, prop=PROPERTY)
     stats.traces = stats.evaluations
     d = depth(tier)
